@@ -286,6 +286,14 @@ def install():
 GRAPH_STATES = ["q0", "x y", "starting_0", "INITIAL_STACK_HIDDEN", 7, "q 1"]
 
 
+def graph_name_map(order):
+    """names hostile to the graph export: the first state (a start state) is called X and the next one
+    'starting_' + X, the name of the invisible node that marks X as a start state"""
+    first = ["q0", 7, "x y", "starting_0"][len(order) % 4]
+    names = [first, "starting_" + str(first), "INITIAL_STACK_HIDDEN", "q 1", 3, "starting_", "q0_starting"]
+    return {s: (names[i] if i < len(names) else "g%d" % i) for i, s in enumerate(order)}
+
+
 def plan(tier, rng, sl, nslices, stats):
     cfg = TIERS[tier]
     for i in range(cfg["random"]):
@@ -327,6 +335,14 @@ def plan(tier, rng, sl, nslices, stats):
                     ast = relabel(rs.gen_ast(rng, rng.choice([0, 1, 2]), escaped=0), heads, rng)
                     body = rs.render(ast, rng)
                 lines.append(h + " -> " + body)
+            if rng.random() < 0.2:
+                # two alternatives of one head that differ only in where the blanks are: x y  vs  xy
+                x, y = rng.choice(["a", "b", "S", "A", "ab"]), rng.choice(["a", "b", "B", "c"])
+                h = rng.choice(heads)
+                extra = [h + " -> " + x + " " + y + rng.choice(["", "*", " c"]), h + " -> " + x + y + rng.choice(["", "*", " c"])]
+                rng.shuffle(extra)
+                for l in extra:
+                    lines.insert(rng.randrange(len(lines) + 1), l)
             if not any(l.startswith("S ") for l in lines):
                 lines.insert(0, "S -> a")
             yield {"kind": "rsa_ebnf", "text": "\n".join(lines), "start": "S"}
@@ -348,9 +364,8 @@ def run_case(c, stats):
         if cc.get("graph_names"):
             # rebuild with graph-hostile names
             fa2 = EpsilonNFA()
-            m = {}
-            for s in fa.states:
-                m[s] = GRAPH_STATES[len(m) % len(GRAPH_STATES)]
+            order = sorted(fa.start_states, key=repr) + sorted(set(fa.states) - set(fa.start_states), key=repr)
+            m = graph_name_map(order)
             for p, a, q in fa:
                 fa2.add_transition(m[p], a, m[q])
             for s in fa.start_states:
@@ -374,14 +389,13 @@ def run_case(c, stats):
         if cc.get("lonely_final"):
             p.add_final_state("lonely")
         if cc.get("graph_names"):
-            p2 = PDA(start_state="starting_0", start_stack_symbol=p._start_stack_symbol.value)
-            names = {p.start_state.value: "starting_0"}
-            for s in p.states:
-                names.setdefault(s.value, GRAPH_STATES[len(names) % len(GRAPH_STATES)])
+            order = [p.start_state.value] + sorted({s.value for s in p.states} - {p.start_state.value}, key=repr)
+            names = graph_name_map(order)
+            p2 = PDA(start_state=names[order[0]], start_stack_symbol=p._start_stack_symbol.value)
             sy = (lambda v: {"a": "a->b", "b": "/", "Z": "Z/0", "X": "->", "Y": "X->Y"}.get(v, v)) \
                 if cc.get("graph_syms") else (lambda v: v)
             if cc.get("graph_syms"):
-                p2 = PDA(start_state="starting_0", start_stack_symbol=sy(p._start_stack_symbol.value))
+                p2 = PDA(start_state=names[order[0]], start_stack_symbol=sy(p._start_stack_symbol.value))
             for (q, a, X), outs in p.to_dict().items():
                 for (r, push) in outs:
                     p2.add_transition(names[q.value], sy(a.value), sy(X.value), names[r.value],
